@@ -309,6 +309,35 @@ def run(ctx, prog):
         ok = bool(rets) and ((bool(own) and bool(dom(rm))) or not own) and sorted(inner) == deleg_fields and (bool(own) or bool(inner))
         ctx.inst('C04.R4', ib.short, 'invalidate removes the entry on every path (own cache) and forwards to every inner strategy', ok,
                  'own cache field(s) %s: remove(doc_id) on every path: %s; inner strategies %s: forwarded to %s' % (own, bool(dom(rm)), inner, deleg_fields))
+    # acknowledgement only after the canonical write: a mutator reports a change (Ok(true) / Ok(n)) only past the success edge of its cold-tier call;
+    # whatever it returns without having called the canonical store is `false` / `0` (nothing acknowledged). A fast path that trusts the mirror's
+    # metadata ("already equal, nothing to do") acknowledges an update the canonical store never saw.
+    CANON = [('TieredEngine::update_metadata', 'HnswBackend::update_metadata'), ('TieredEngine::delete', 'HnswBackend::delete'),
+             ('TieredEngine::batch_delete', 'HnswBackend::batch_delete'), ('TieredEngine::insert', 'HnswBackend::insert')]
+    for fn, callee in CANON:
+        b = ctx.body('C04.R4', fn)
+        if b is None:
+            continue
+        bo = flow.Origin(b)
+        cc = b.calls_to(callee)
+        se = [e for c in cc for e in (flow.success_edges(b, c) or [])]
+        if not cc or not se:
+            ctx.inst('C04.R4', b.short, 'acknowledges only what the canonical store accepted', False, 'no tested call of %s' % callee)
+            continue
+        r0 = b.reach([0], avoid_edges=se) | {0}
+        oks = []
+        for i_, blk in enumerate(b.blocks):
+            for st in blk['s']:
+                rv = st.get('rv')
+                if rv and st['pl']['l'] == 0 and not st['pl'].get('p') and rv['k'] == 'agg' and rv.get('variant') == 'Ok':
+                    oks.append((i_, flow.render(bo.of_operand(rv['ops'][0])) if rv['ops'] else '()'))
+        early = [(i_, v) for i_, v in oks if i_ in r0]
+        bad = [(i_, v) for i_, v in early if v not in ('0', 'false', '()')] if fn != 'TieredEngine::insert' else [(i_, v) for i_, v in early]
+        mirror_reads = [c for c in b.calls if c.callee and re.search(r'HotTier::(get_metadata|get_with_coherence|get)$', c.callee) and c.bb in r0]
+        ctx.inst('C04.R4', b.short, 'acknowledges only what the canonical store accepted', bool(oks) and not bad and not mirror_reads,
+                 ('returns Ok(%s) at %s without having called %s' % (bad[0][1][:40], b.loc_of(bad[0][0]), callee)) if bad else
+                 ('reads the mirror (%s) before the canonical call' % flow.short(mirror_reads[0].callee)) if mirror_reads else
+                 '%d Ok returns, %d before the canonical call (all false / 0)' % (len(oks), len(early)))
     # ------------------------------------------------------------------ R5
     ctx.rule('C04.R5', 'drain keeps the canonical record authoritative: reconcile_drained_hot_tier_documents writes to the cold tier only in the arm '
                        'where the canonical embedding or metadata is missing')
